@@ -1,6 +1,7 @@
 import SJ.Model.Stream
 import SJ.Proofs.Machine
 import SJ.Proofs.StreamValues
+import SJ.Proofs.StreamSyntax
 /-!
 # C12 — stream iteration yields each value once with exact offsets
 
@@ -216,5 +217,116 @@ example : ∃ vals, ResAll envS exSegs vals ∧
 example : (history envS 5 (start [0x31, 0x20, 0x5b, 0x32, 0x5d, 0x22, 0x78, 0x22])).map (·.2) = [1, 5, 8, 8, 8] := rfl
 example : ((history envS 5 (start [0x31, 0x20, 0x5b, 0x32, 0x5d, 0x22, 0x78, 0x22])).map fun p =>
     match p.1 with | .none => 0 | .ok _ => 1 | .err _ _ => 2) = [1, 1, 1, 0, 0] := rfl
+
+
+/-! ## "Eof whenever the rest of the input is a proper prefix of a value, Syntax otherwise"
+
+The Eof direction (a proper prefix of an accepted stream item fails with an Eof-classified error at the end of the
+input) is C10's stream-prefix theorem. Here is the converse, at the level of the RFC 8259 grammar and without any
+hypothesis on the state, for `Value` and `IgnoredAny` items, every source and configuration:
+
+* `c12_eof_proper_prefix`: an item that is an Eof-classified error — the rest of the input `r` at that item (after
+  the whitespace `next()` skips) is a proper prefix of a value: `r ++ ys` derives a value for some non-empty `ys`. One
+  qualification, stated by the property itself ("a \u escape cut off by the end of input counts as truncation"): when
+  `r` ends inside the four bytes after `\u` — which are not looked at before all four are there — this holds of `r`
+  minus those `k ≤ 3` bytes.
+* `c12_syntax_otherwise`: so if `r` is NOT a proper prefix of any value (and does not end inside a `\u` group), the item's
+  error is Syntax-classified. (A complete value never yields an Eof error either: it is the value, or
+  `TrailingCharacters` from `peek_end_of_value`, which is Syntax-classified.)
+
+Proof: an Eof-classified error of `runPrefix` comes from `finish` after every byte was consumed; the scanner of skipped
+content — which accepts exactly the grammar — consumes the same bytes and fails at the end too (`Proofs/EarliestSim`),
+and every one of its states has an explicit completion (`Proofs/Earliest*`, `Proofs/EofViable`). -/
+
+open SJ.Proofs.StreamSyntax in
+/-- **C12 (Eof ⇒ proper prefix of a value).** -/
+theorem c12_eof_proper_prefix (env : Env) (st : SS) (c : Code) (idx : Nat) (st' : SS)
+    (h : next env st = (.err c idx, st')) (hc : classify c = .eof) :
+    ∃ k ys t, (k = 0 ∨ (0 < k ∧ k ≤ 3 ∧ ∃ x, (skipWs st.rest st.pos).1.take ((skipWs st.rest st.pos).1.length - k) =
+          x ++ [0x5c, 0x75])) ∧
+      k ≤ (skipWs st.rest st.pos).1.length ∧ ys ≠ [] ∧
+      Spec.Grammar.Derives ((skipWs st.rest st.pos).1.take ((skipWs st.rest st.pos).1.length - k) ++ ys) t := by
+  unfold next at h
+  split at h
+  · cases h
+  · simp only at h
+    cases hsk : skipWs st.rest st.pos with
+    | mk r p =>
+      rw [hsk] at h
+      simp only at h
+      cases r with
+      | nil => cases h
+      | cons b r0 =>
+        simp only at h
+        have hb := skipWs_head _ _ _ _ _ hsk
+        cases hr : runPrefix env init p (b :: r0) with
+        | err c' idx' =>
+          rw [hr] at h
+          simp only [Prod.mk.injEq, Item.err.injEq] at h
+          obtain ⟨⟨rfl, rfl⟩, _⟩ := h
+          exact item_eof_prefix env b r0 p c' idx' hb hr hc
+        | ok v e =>
+          exfalso
+          rw [hr] at h
+          simp only at h
+          repeat' split at h
+          all_goals first
+            | (cases h; done)
+            | (simp only [Prod.mk.injEq, Item.err.injEq] at h
+               rw [← h.1.1] at hc; cases hc)
+
+/-- every code is Syntax- or Eof-classified (`Io` and `Data` errors carry no `ErrorCode` of this list) -/
+theorem classify_syntax_or_eof (c : Code) : classify c = .syntax ∨ classify c = .eof := by
+  cases c <;> simp [classify]
+
+/-- **C12 (Syntax otherwise).** If the rest of the input at an item is not a proper prefix of any value — no non-empty
+    continuation of it derives a value — and does not end inside the four bytes after a `\u`, then an error yielded for
+    that item is Syntax-classified. -/
+theorem c12_syntax_otherwise (env : Env) (st : SS) (c : Code) (idx : Nat) (st' : SS)
+    (h : next env st = (.err c idx, st'))
+    (hnp : ¬ ∃ ys t, ys ≠ [] ∧ Spec.Grammar.Derives ((skipWs st.rest st.pos).1 ++ ys) t)
+    (hnu : ∀ x d, (skipWs st.rest st.pos).1 = x ++ [0x5c, 0x75] ++ d → d = [] ∨ 3 < d.length) :
+    classify c = .syntax := by
+  rcases classify_syntax_or_eof c with hs | he
+  · exact hs
+  · exfalso
+    obtain ⟨k, ys, t, hk, hle, hne, hd⟩ := c12_eof_proper_prefix env st c idx st' h he
+    rcases hk with rfl | ⟨h1, h2, x, hx⟩
+    · exact hnp ⟨ys, t, hne, by simpa using hd⟩
+    · have hsplit : (skipWs st.rest st.pos).1 =
+          x ++ [0x5c, 0x75] ++ (skipWs st.rest st.pos).1.drop ((skipWs st.rest st.pos).1.length - k) := by
+        rw [← hx, List.take_append_drop]
+      rcases hnu x _ hsplit with h0 | h0
+      · have := congrArg List.length h0; simp at this; omega
+      · simp at h0; omega
+
+/-! non-vacuity: after `1 ` the rest `[2,` is an Eof error (it continues with `null]`), the rest `[2,]` a Syntax error
+    (`TrailingComma`: no continuation derives), and `"\uZ` — cut inside the group — is Eof although the group is bad -/
+example : (next envS (start [0x5b, 0x32, 0x2c])).1 matches .err .EofWhileParsingValue 3 := rfl
+example : ∃ k ys t, (k = 0 ∨ (0 < k ∧ k ≤ 3 ∧ ∃ x,
+      (skipWs (start [0x5b, 0x32, 0x2c]).rest 0).1.take ((skipWs (start [0x5b, 0x32, 0x2c]).rest 0).1.length - k) =
+        x ++ [0x5c, 0x75])) ∧
+    k ≤ (skipWs (start [0x5b, 0x32, 0x2c]).rest 0).1.length ∧ ys ≠ [] ∧
+    Spec.Grammar.Derives ((skipWs (start [0x5b, 0x32, 0x2c]).rest 0).1.take
+      ((skipWs (start [0x5b, 0x32, 0x2c]).rest 0).1.length - k) ++ ys) t :=
+  c12_eof_proper_prefix envS (start [0x5b, 0x32, 0x2c]) .EofWhileParsingValue 3 _ rfl rfl
+example : (next envS (start [0x5b, 0x32, 0x2c, 0x5d])).1 matches .err .TrailingComma 4 := rfl
+example : (next envS (start [0x22, 0x5c, 0x75, 0x5a])).1 matches .err .EofWhileParsingString 4 := rfl
+
+/-- `[2,]`: no continuation derives a value (the scanner of skipped content fails at `]`: `dead_grammar_core`), so the item is
+    Syntax-classified by the theorem -/
+example : classify .TrailingComma = .syntax := by
+  have hsk : (skipWs (start [0x5b, 0x32, 0x2c, 0x5d]).rest (start [0x5b, 0x32, 0x2c, 0x5d]).pos).1 =
+      [0x5b, 0x32, 0x2c, 0x5d] := rfl
+  refine c12_syntax_otherwise envS (start [0x5b, 0x32, 0x2c, 0x5d]) .TrailingComma 4 _ rfl ?_ ?_
+  · rw [hsk]
+    rintro ⟨ys, t, _, hd⟩
+    have hdead := SJ.Proofs.EarliestGrammar.dead_grammar_core envS [0x5b, 0x32, 0x2c] 0x5d
+      ⟨.val .arrNext, [.arr [.num (.pos 2)]]⟩ .TrailingComma .incl rfl rfl rfl ys t
+    exact hdead ⟨[], _, [], by simp, by decide, by decide, hd⟩
+  · rw [hsk]
+    intro x d hd
+    exfalso
+    rcases x with _ | ⟨x0, _ | ⟨x1, _ | ⟨x2, _ | ⟨x3, x4⟩⟩⟩⟩ <;> simp at hd
 
 end SJ.Props.C12
